@@ -399,7 +399,7 @@ def assemble(route, po, calls, body, decorate=False, modifier=None):
         src += 'callee_objs = [%s]\n' % ', '.join('callee%d' % i for i in range(n))
     elif route == 'selfmethod':
         selfo = 'self' + (', ' + ostr if ostr else '')
-        src += 'class C(object):\n    label = 1\n'
+        src += 'class C(object):\n    label = 1\n    def __len__(self): return 0\n'
         for i, c in enumerate(calls):
             r = sigs.render(c['pi'])
             src += '    def callee%d(%s): return None\n' % (i, 'self' + (', ' + r if r else ''))
